@@ -107,6 +107,10 @@ func TestC18Counters(t *testing.T) {
 					in.by = 1
 				} else {
 					in.by = rapid.Uint64Range(0, 1<<40).Draw(t, "by")
+					if rapid.IntRange(0, 7).Draw(t, "hugeBy") == 0 {
+						// sums travel through the whole uint64 range (also its upper half) and wrap
+						in.by = rapid.Uint64Range(1<<61, 1<<63).Draw(t, "byHuge")
+					}
 				}
 				plans[w] = append(plans[w], in)
 				want[in.ctr] += in.by
